@@ -21,6 +21,7 @@ type PackagesFacade struct {
 
 	fileSet       *token.FileSet
 	files         map[string]*ast.File         // filename → *ast.File
+	sourceFiles   []string                     // names of the files matched by the configured globs
 	fileToPackage map[string]*packages.Package // filename → owning *packages.Package
 
 	packagesCache  map[string]*packages.Package // pkgPath → *packages.Package
@@ -51,14 +52,14 @@ func (facade *PackagesFacade) FSet() *token.FileSet {
 func (facade *PackagesFacade) GetAllSourceFiles() []*ast.File {
 	// Map iteration order is random; everything downstream (controller discovery, the order of a
 	// controller's receivers, import serials) must not depend on it, so enumerate by file name
-	fileNames := make([]string, 0, len(facade.files))
-	for fileName := range facade.files {
-		fileNames = append(fileNames, fileName)
-	}
+	//
+	// Only the files matched by the globs are sources. Packages that are loaded later on, because
+	// a route uses one of their types, register their files as well but must not be searched for controllers
+	fileNames := append([]string{}, facade.sourceFiles...)
 	fileNames = verifhook.Permute("GetAllSourceFiles", fileNames)
 	sort.Strings(fileNames)
 
-	result := make([]*ast.File, 0, len(facade.files))
+	result := make([]*ast.File, 0, len(fileNames))
 	for _, fileName := range fileNames {
 		result = append(result, facade.files[fileName])
 	}
@@ -115,6 +116,10 @@ func (facade *PackagesFacade) initWithGlobs() error {
 	if err != nil {
 		logger.Error("Could not load one or more packages (%v) - %v", pkgPathsToLoad.ToSlice(), err)
 		return err
+	}
+
+	for fileName := range facade.files {
+		facade.sourceFiles = append(facade.sourceFiles, fileName)
 	}
 
 	return nil
